@@ -8,7 +8,9 @@
 (* return, nothing runs after completion, and a restart works.                               *)
 EXTENDS Integers, Sequences, FiniteSets, SequencesExt, TLC
 
-CONSTANTS Threads, MaxTasks, MaxGen, WorkerCounts
+CONSTANTS Threads, MaxTasks, MaxGen, WorkerCounts, MaxHeld,
+          Controllers, Submitters,   \* threads that issue Start/Shutdown/waits, resp. Submit calls (symmetry reduction; both = Threads by default)
+          Ops       \* stimulus kinds offered by Next (a configuration may explore a sub-alphabet more deeply)
 VARIABLES cfg,
           running,      \* pool accepts tasks
           alive,        \* workers of the current generation have not all exited yet
@@ -20,7 +22,7 @@ VARIABLES cfg,
           fin,          \* task id -> "ran" | "cancelled" for finished tasks (others: "no")
           wait,         \* thread -> "none" | "shutdown" (ShutdownComplete.Wait) | "zero" (WaitIsZero) | "start" (Start waiting for completion)
                         \*           | "sub" (a Submit held between its running check and its bookkeeping) | "sd" (Shutdown waiting for that Submit)
-          psub,         \* the held Submit: [k |-> kind, id |-> task id] or [k |-> "none", id |-> 0]
+          psub,         \* thread -> its held Submit: [k |-> kind, id |-> task id] or NoSub
           ev
 vars == <<cfg, running, alive, gen, nsub, kind, q, run, fin, wait, psub, ev>>
 View == <<cfg, running, alive, gen, nsub, kind, q, run, fin, wait, psub>>
@@ -34,7 +36,7 @@ Pending(qq, rr) == Len(qq) + Cardinality(rr)
 
 InitState(c) == /\ cfg = c /\ running = FALSE /\ alive = FALSE /\ gen = 0 /\ nsub = 0
                 /\ kind = [k \in Tasks |-> "plain"] /\ q = <<>> /\ run = {} /\ fin = [k \in Tasks |-> "no"]
-                /\ wait = [t \in Threads |-> "none"] /\ psub = NoSub
+                /\ wait = [t \in Threads |-> "none"] /\ psub = [t \in Threads |-> NoSub]
 Init == \E c \in Cfgs : InitState(c) /\ ev = [op |-> "reset", cfg |-> c]
 
 (* ---- the cascade that follows every call: start queued tasks on free workers, let spawning bodies submit their ---- *)
@@ -87,20 +89,21 @@ Apply(s, t, extraRet, res0, w0) == ApplyF(s, t, extraRet, res0, w0, -1)
 
 E(s) == s @@ [res |-> 0, st |-> 0]
 NoStartWaiting == \A x \in Threads : wait[x] # "start"
+NoneHeld == \A x \in Threads : psub[x] = NoSub
 
 Do(s0) ==
   LET s == IF s0.op = "reset" THEN s0 ELSE E(s0) IN
   CASE s.op = "reset" -> /\ cfg' = s.cfg /\ running' = FALSE /\ alive' = FALSE /\ gen' = 0 /\ nsub' = 0
                          /\ kind' = [k \in Tasks |-> "plain"] /\ q' = <<>> /\ run' = {} /\ fin' = [k \in Tasks |-> "no"]
-                         /\ wait' = [t \in Threads |-> "none"] /\ psub' = NoSub /\ ev' = s
+                         /\ wait' = [t \in Threads |-> "none"] /\ psub' = [t \in Threads |-> NoSub] /\ ev' = s
     [] s.op = "Start" ->
-         /\ UNCHANGED <<cfg, psub>> /\ s.t \notin Busy /\ NoStartWaiting /\ gen < MaxGen /\ psub = NoSub
+         /\ UNCHANGED <<cfg, psub>> /\ s.t \notin Busy /\ NoStartWaiting /\ gen < MaxGen /\ NoneHeld
          /\ \A k \in Tasks : (k \in run \/ \E i \in DOMAIN q : q[i] = k) => kind[k] = "plain"
          /\ IF running THEN Apply(Cur, s, {s.t}, "", wait)
             ELSE IF alive THEN Apply(Cur, s, {}, "", [wait EXCEPT ![s.t] = "start"])     \* waits for the previous shutdown to complete
             ELSE /\ Apply([Cur EXCEPT !.running = TRUE, !.alive = TRUE], s, {s.t}, "", wait)
     [] s.op = "Submit" ->     \* s.k = "plain" | "spawn"
-         /\ UNCHANGED <<cfg, psub>> /\ s.t \notin Busy /\ NoStartWaiting /\ nsub < MaxTasks /\ psub = NoSub
+         /\ UNCHANGED <<cfg, psub>> /\ s.t \notin Busy /\ NoStartWaiting /\ nsub < MaxTasks /\ NoneHeld
          /\ IF running
               THEN Apply([Cur EXCEPT !.nsub = nsub + 1, !.kind[nsub + 1] = s.k, !.q = Append(q, nsub + 1)], s, {s.t}, "accepted", wait)
               ELSE Apply([Cur EXCEPT !.nsub = nsub + 1], s, {s.t}, "refused", wait)
@@ -110,19 +113,22 @@ Do(s0) ==
     [] s.op = "Shutdown" ->
          /\ UNCHANGED <<cfg, psub>> /\ s.t \notin Busy /\ NoStartWaiting
          /\ \/ Apply([Cur EXCEPT !.running = FALSE], s, {s.t}, "", wait)
-            \/ /\ psub # NoSub     \* an implementation may make Shutdown wait for a Submit that is past its running check
+            \/ /\ ~NoneHeld        \* an implementation may make Shutdown wait for Submits that are past their running check
                /\ Apply(Cur, s, {}, "", [wait EXCEPT ![s.t] = "sd"])
     [] s.op = "SubmitBegin" ->   \* Submit held (by the harness, at the verif yield point) right after its running check
-         /\ UNCHANGED cfg /\ s.t \notin Busy /\ NoStartWaiting /\ nsub < MaxTasks /\ psub = NoSub
+         /\ UNCHANGED cfg /\ s.t \notin Busy /\ NoStartWaiting /\ nsub < MaxTasks
+         /\ Cardinality({x \in Threads : psub[x] # NoSub}) < MaxHeld /\ \A x \in Threads : wait[x] # "sd"
          /\ IF running
-              THEN /\ psub' = [k |-> s.k, id |-> nsub + 1]
+              THEN /\ psub' = [psub EXCEPT ![s.t] = [k |-> s.k, id |-> nsub + 1]]
                    /\ Apply([Cur EXCEPT !.nsub = nsub + 1], s, {}, "", [wait EXCEPT ![s.t] = "sub"])
               ELSE /\ UNCHANGED psub /\ Apply([Cur EXCEPT !.nsub = nsub + 1], s, {s.t}, "refused", wait)
-    [] s.op = "SubmitEnd" ->     \* the held Submit goes on: accepted (then it is run or cancelled exactly once) or refused
-         /\ UNCHANGED cfg /\ wait[s.t] = "sub" /\ psub' = NoSub
-         /\ LET SD == {x \in Threads : wait[x] = "sd"}
+    [] s.op = "SubmitEnd" ->     \* a held Submit goes on: accepted (then it is run or cancelled exactly once) or refused
+         /\ UNCHANGED cfg /\ wait[s.t] = "sub" /\ psub' = [psub EXCEPT ![s.t] = NoSub]
+         /\ LET last == \A x \in Threads \ {s.t} : psub[x] = NoSub
+                SD == IF last THEN {x \in Threads : wait[x] = "sd"} ELSE {}       \* a waiting Shutdown goes on after the LAST held Submit
                 w0 == [x \in Threads |-> IF x = s.t \/ x \in SD THEN "none" ELSE wait[x]]
-                acc == [Cur EXCEPT !.kind[psub.id] = psub.k, !.q = Append(q, psub.id)] IN
+                mine == psub[s.t]
+                acc == [Cur EXCEPT !.kind[mine.id] = mine.k, !.q = Append(q, mine.id)] IN
             \/ /\ running \/ alive                    \* accepted: the pool can still process it
                /\ IF SD = {} THEN Apply(acc, s, {s.t}, "accepted", w0)
                   ELSE \E f \in 0..(MaxTasks + 2) :     \* the waiting Shutdown flips the flag somewhere during the cascade
@@ -139,7 +145,9 @@ Do(s0) ==
 Stimuli == [op : {"Start", "Shutdown", "WaitShutdown", "WaitIsZero"}, t : Threads]
            \cup [op : {"Submit", "SubmitBegin"}, t : Threads, k : {"plain", "spawn"}] \cup [op : {"Release"}, id : Tasks]
            \cup [op : {"SubmitEnd"}, t : Threads]
-Next == \E s \in Stimuli : Do(s)
+Role(s) == IF s.op \in {"Start", "Shutdown", "WaitShutdown", "WaitIsZero"} THEN s.t \in Controllers
+           ELSE IF s.op \in {"Submit", "SubmitBegin"} THEN s.t \in Submitters ELSE TRUE
+Next == \E s \in Stimuli : s.op \in Ops /\ Role(s) /\ Do(s)
 Spec == Init /\ [][Next]_vars
 
 (* ---- the property, on the model ---- *)
@@ -153,7 +161,7 @@ NoIdleWithWork == (q # <<>> /\ Cardinality(run) < cfg.workers) => FALSE
 (* shutdown completes as soon as nothing is running: no waiter stays blocked without reason *)
 WaitersJustified == \A t \in Threads : /\ wait[t] = "zero" => Pending(q, run) > 0
                                        /\ wait[t] \in {"shutdown", "start"} => alive
-                                       /\ wait[t] = "sd" => psub # NoSub
+                                       /\ wait[t] = "sd" => ~NoneHeld
 ShutdownCompletes == (~running /\ q = <<>> /\ run = {}) => ~alive
 (* finished tasks stay finished: exactly-once *)
 ExactlyOnce == [][\A k \in Tasks : fin[k] # "no" => fin'[k] = fin[k] \/ ev'.op = "reset"]_vars
